@@ -112,6 +112,8 @@ pub fn sig_no(name: &str) -> i32 {
 
 thread_local! {
     static ARGS_CACHE: RefCell<HashMap<Vec<String>, Args>> = RefCell::new(HashMap::new());
+    /// a plain (real-time) runtime kept per worker thread for argument normalisation only
+    static PARSE_RT: tokio::runtime::Runtime = tokio::runtime::Builder::new_current_thread().enable_all().build().expect("runtime for arg parsing");
 }
 
 /// Parse + normalise outside the simulation (it touches the real filesystem through a blocking pool).
@@ -119,10 +121,8 @@ fn parsed_args(argv: &[String]) -> Args {
     if let Some(a) = ARGS_CACHE.with(|c| c.borrow().get(argv).cloned()) {
         return a;
     }
-    let rt = tokio::runtime::Builder::new_current_thread().enable_all().build().expect("runtime for arg parsing");
     let os: Vec<OsString> = argv.iter().map(OsString::from).collect();
-    let args = rt.block_on(async move { watchexec_cli::verif::args_from(os).await }).expect("argv must parse");
-    drop(rt);
+    let args = PARSE_RT.with(|rt| rt.block_on(async move { watchexec_cli::verif::args_from(os).await })).expect("argv must parse");
     ARGS_CACHE.with(|c| c.borrow_mut().insert(argv.to_vec(), args.clone()));
     args
 }
